@@ -72,9 +72,16 @@ unsafe fn fence_new(bytes: usize, align: usize) -> Option<usize> {
     let id = NEXT_BLK; NEXT_BLK += 1;
     BLKS[NB] = Blk { region: r, rlen, ptr, bytes, align, live: true, id, stale: false };
     NB += 1;
+    if r < LO { LO = r; }
+    if r + rlen > HI { HI = r + rlen; }
     Some(ptr)
 }
+/// address range spanned by all regions in the table: almost every pointer of the system allocator lies outside and is
+/// rejected without a scan (the table can hold thousands of leaked blocks when the code under test leaks)
+static mut LO: usize = usize::MAX;
+static mut HI: usize = 0;
 unsafe fn find(ptr: usize) -> Option<usize> {
+    if ptr < LO || ptr >= HI { return None; }
     for i in (0..NB).rev() { if BLKS[i].ptr == ptr && BLKS[i].live { return Some(i); } }
     None
 }
@@ -101,7 +108,18 @@ pub fn reset() {
             if BLKS[i].live { BLKS[k] = BLKS[i]; BLKS[k].stale = true; k += 1; }
             else { munmap(BLKS[i].region as *mut c_void, BLKS[i].rlen); }
         }
+        // blocks leaked by the code under test pile up here; what the harness itself carries over a case boundary is freed
+        // at the start of the next case, so anything older than STALE_KEEP newer survivors is a leak: give it back
+        const STALE_KEEP: usize = 1024;
+        if k > STALE_KEEP {
+            let cut = k - STALE_KEEP;
+            for i in 0..cut { munmap(BLKS[i].region as *mut c_void, BLKS[i].rlen); }
+            for i in cut..k { BLKS[i - cut] = BLKS[i]; }
+            k -= cut;
+        }
         NB = k; NEXT_BLK = 1; TABLE_FULL = false;
+        LO = usize::MAX; HI = 0;
+        for i in 0..NB { if BLKS[i].region < LO { LO = BLKS[i].region; } if BLKS[i].region + BLKS[i].rlen > HI { HI = BLKS[i].region + BLKS[i].rlen; } }
     }
 }
 /// (live, bytes, align) of the guarded block starting at `ptr`
@@ -112,7 +130,7 @@ pub fn live_blocks() -> usize { unsafe { (0..NB).filter(|i| BLKS[*i].live && !BL
 pub fn stale_blocks() -> usize { unsafe { (0..NB).filter(|i| BLKS[*i].stale).count() } }
 pub fn table_full() -> bool { unsafe { TABLE_FULL } }
 /// all live guarded blocks still have intact canaries?
-pub fn canaries_ok() -> bool { unsafe { (0..NB).filter(|i| BLKS[*i].live).all(|i| canary_ok(&BLKS[i])) } }
+pub fn canaries_ok() -> bool { unsafe { (0..NB).filter(|i| BLKS[*i].live && !BLKS[*i].stale).all(|i| canary_ok(&BLKS[i])) } }
 
 fn clamp(x: usize) -> u32 { if x > 0x3fff_ffff { 0x3fff_ffff } else { x as u32 } }
 fn layout_valid(size: usize, align: usize) -> bool {
